@@ -199,6 +199,93 @@ func transitionCreate(root string, c c16case) (bool, string, error) {
 	return true, "", nil
 }
 
+// replaceLegs are the legs in which an EXISTING entry is replaced by a link:
+// retarget (a valid link `-> n`), file2link (a regular file), dir2link (a
+// directory holding one file).
+var replaceLegs = []string{"retarget", "file2link", "dir2link"}
+
+// placeInitial creates what the replacement legs start from at rel.
+func placeInitial(root, leg, rel string) error {
+	switch leg {
+	case "retarget":
+		// "first create a valid link by Transition"
+		ch := &core.Change{Path: rel, New: &core.Entry{Kind: core.EntryKind_SymbolicLink, Target: "n"}}
+		res, problems, _ := core.Transition(context.Background(), root, []*core.Change{ch}, &core.Cache{},
+			core.SymbolicLinkMode_SymbolicLinkModePortable, 0o600, 0o700, nil, false, nil)
+		if len(res) != 1 || res[0] == nil || len(problems) != 0 {
+			return fmt.Errorf("initial link %s not created: %v", rel, problems)
+		}
+		return nil
+	case "file2link":
+		return os.WriteFile(filepath.Join(root, rel), []byte("old"), 0o600)
+	case "dir2link":
+		if err := os.Mkdir(filepath.Join(root, rel), 0o700); err != nil {
+			return err
+		}
+		return os.WriteFile(filepath.Join(root, rel, "in"), []byte("inner"), 0o600)
+	}
+	return fmt.Errorf("unknown leg %s", leg)
+}
+
+// replaceByLink plans "what the scan saw at rel -> link(target)" and lets the
+// real core.Transition apply it in portable mode. Accepted = afterwards a link
+// with the new target is on disk at rel, or the transition reports the new
+// link as the result.
+func replaceByLink(root string, snap *core.Snapshot, cache *core.Cache, rel, judgePath, target string) (bool, string, error) {
+	old := entryAt(snap.Content, rel)
+	if old == nil {
+		return false, "", fmt.Errorf("%s missing from the snapshot", rel)
+	}
+	change := &core.Change{Path: rel, Old: old, New: &core.Entry{Kind: core.EntryKind_SymbolicLink, Target: target}}
+	results, _, _ := core.Transition(context.Background(), root, []*core.Change{change}, cache,
+		core.SymbolicLinkMode_SymbolicLinkModePortable, 0o600, 0o700, nil, snap.DecomposesUnicode, nil)
+	if len(results) != 1 {
+		return false, "", fmt.Errorf("transition returned %d results", len(results))
+	}
+	onDisk, lerr := os.Readlink(filepath.Join(root, rel))
+	written := lerr == nil && onDisk == target
+	reported := results[0] != nil && results[0].Kind == core.EntryKind_SymbolicLink && results[0].Target == target
+	if !written && !reported {
+		return false, "", nil
+	}
+	if w := judgeAccepted(judgePath, target); w != "" {
+		if written {
+			return true, "transition wrote " + w, nil
+		}
+		return true, "transition reports " + w, nil
+	}
+	return true, "", nil
+}
+
+// runReplaceOne runs one replacement case in a fresh root.
+func runReplaceOne(t testing.TB, c c16case) (bool, string, error) {
+	root, err := os.MkdirTemp("", "c16rp")
+	if err != nil {
+		return false, "", err
+	}
+	defer os.RemoveAll(root)
+	if err := mkLinkDirs(root); err != nil {
+		return false, "", err
+	}
+	if err := placeInitial(root, c.Leg, c.Path); err != nil {
+		return false, "", err
+	}
+	snap, cache, _, err := doScan(root, nil, nil, nil, newIgnorer(t, nil), nil, portableModes)
+	if err != nil {
+		return false, "", err
+	}
+	return replaceByLink(root, snap, cache, c.Path, c.Path, c.Target)
+}
+
+func isReplaceLeg(leg string) bool {
+	for _, l := range replaceLegs {
+		if l == leg {
+			return true
+		}
+	}
+	return false
+}
+
 func TestC16(t *testing.T) {
 	r := vr.New(t, "C16", "exploration")
 	defer r.Finish()
@@ -216,6 +303,11 @@ func TestC16(t *testing.T) {
 			acc, what, err = runScanOne(t, c)
 		case "transition":
 			acc, what, err = runTransitionOne(c)
+		default:
+			if !isReplaceLeg(c.Leg) {
+				t.Fatalf("INFRA: unknown leg %q", c.Leg)
+			}
+			acc, what, err = runReplaceOne(t, c)
 		}
 		must(t, err)
 		ok, why := lexicallyPortable(c.Path, c.Target)
@@ -231,7 +323,7 @@ func TestC16(t *testing.T) {
 	if vr.Thorough() {
 		maxTok, diskTok = 8, 5
 	}
-	r.Rule(fmt.Sprintf("normalize leg: every target of 1..%d tokens from {a, ., .., empty} joined by '/' x link paths %v, plus %d boundary strings (246..300 bytes, ':' and '\\' at every position of every <=3-token target, absolute forms) x the same paths, through core.VerifNormalizeSymbolicLink; scan leg: every target of 1..%d tokens as a real link at depth 0..2, scanned by core.Scan in portable mode; transition leg: the same targets (plus the empty one) as a planned link creation applied by core.Transition in portable mode. Non-trivial = the target is non-empty, relative, <= 247 bytes, colon- and backslash-free, so the depth walk decides; distinct by (leg, path, target).",
+	r.Rule(fmt.Sprintf("normalize leg: every target of 1..%d tokens from {a, ., .., empty} joined by '/' x link paths %v, plus %d boundary strings (246..300 bytes, ':' and '\\' at every position of every <=3-token target, absolute forms) x the same paths, through core.VerifNormalizeSymbolicLink; scan leg: every target of 1..%d tokens as a real link at depth 0..2, scanned by core.Scan in portable mode; transition leg: the same targets (plus the empty one) as a planned link creation applied by core.Transition in portable mode; replacement legs: an existing valid link (created by Transition, then scanned) retargeted to each of those targets and to every boundary string, and an existing file / non-empty directory replaced by a link with each of those targets, Old = the scanned entry, applied by core.Transition in portable mode at depth 0..2. Non-trivial = the target is non-empty, relative, <= 247 bytes, colon- and backslash-free, so the depth walk decides; distinct by (leg, path, target).",
 		maxTok, c16Paths, len(c16Boundary()), diskTok))
 	r.Assume("resolution is lexical (components that are themselves links are C17's subject)",
 		"stepping above the root at any point of the target counts as outside, whatever follows",
@@ -338,6 +430,55 @@ func TestC16(t *testing.T) {
 		}
 	}
 
+	// ---- replacement legs: an existing valid link / file / directory is
+	// replaced by a link with each target. Batches of 150 cases share one root
+	// (initial entries created, one real Scan, then one Transition per case). ----
+	type rcase struct {
+		target string
+		ntok   int
+	}
+	var tokenTargets, allTargets []rcase
+	for n := 1; n <= diskTok; n++ {
+		for _, target := range targetsOfLength(n) {
+			tokenTargets = append(tokenTargets, rcase{target, n})
+		}
+	}
+	allTargets = append(allTargets, tokenTargets...)
+	for _, target := range c16Boundary() {
+		allTargets = append(allTargets, rcase{target, 99})
+	}
+	for _, leg := range replaceLegs {
+		targets := tokenTargets
+		if leg == "retarget" {
+			targets = allTargets // incl. over-long, colon, backslash, absolute forms
+		}
+		for _, p := range c16Paths[:3] {
+			for lo := 0; lo < len(targets); lo += 150 {
+				hi := lo + 150
+				if hi > len(targets) {
+					hi = len(targets)
+				}
+				broot, err := os.MkdirTemp(troot, "batch")
+				must(t, err)
+				must(t, mkLinkDirs(broot))
+				rels := make([]string, hi-lo)
+				for i := range rels {
+					rels[i] = fmt.Sprintf("%s%d", p, i)
+					must(t, placeInitial(broot, leg, rels[i]))
+				}
+				snap, cache, _, err := doScan(broot, nil, nil, nil, newIgnorer(t, nil), nil, portableModes)
+				must(t, err)
+				for i, rc := range targets[lo:hi] {
+					c := c16case{leg, p, rc.target}
+					acc, what, err := replaceByLink(broot, snap, cache, rels[i], p, rc.target)
+					must(t, err)
+					note(c, rc.ntok, acc, what)
+				}
+				must(t, os.RemoveAll(broot))
+			}
+		}
+	}
+
 	// Report violations smallest first (fewest tokens, shallowest link, then
 	// lexicographic) so that the first one printed is the minimal failing input.
 	sort.SliceStable(viols, func(i, j int) bool {
@@ -366,8 +507,11 @@ func TestC16(t *testing.T) {
 			case "scan":
 				_, w, err := runScanOne(t, c)
 				return err == nil && w != ""
-			default:
+			case "transition":
 				_, w, err := runTransitionOne(c)
+				return err == nil && w != ""
+			default:
+				_, w, err := runReplaceOne(t, c)
 				return err == nil && w != ""
 			}
 		})
@@ -376,4 +520,5 @@ func TestC16(t *testing.T) {
 	r.Sample(c16case{"normalize", "l", "a//../.."})
 	r.Sample(c16case{"scan", "d/e/l", "../../a"})
 	r.Sample(c16case{"transition", "l", "./a/"})
+	r.Sample(c16case{"retarget", "d/l", "../.."})
 }
